@@ -196,6 +196,11 @@ def perform(acl: Acl, op: dict):
         if leaf is not None:
             leaf.sequence = op["n"]
         return None
+    if k == "set_note":
+        leaf = leaf_at(acl, op["i"], op["j"])
+        if leaf is not None:
+            leaf.note = op["note"]
+        return None
     if k == "set_remark_text":
         leaf = leaf_at(acl, op["i"], op["j"])
         if isinstance(leaf, Remark):
